@@ -1675,9 +1675,15 @@ class SoftAbsRegularizedPositiveDefiniteMatrix(
 
     def grad_quadratic_form_inv(self, vector: NDArray) -> NDArray:
         num_j_mtx = self.eigval[:, None] - self.eigval[None, :]
-        num_j_mtx += np.diag(self.grad_softabs(self.unreg_eigval))
         den_j_mtx = self.unreg_eigval[:, None] - self.unreg_eigval[None, :]
-        np.fill_diagonal(den_j_mtx, 1)
+        # For repeated eigenvalues (including the diagonal) the divided difference
+        # tends to the derivative of the softabs function
+        is_repeated = den_j_mtx == 0
+        grad_softabs_mtx = np.broadcast_to(
+            self.grad_softabs(self.unreg_eigval)[:, None], num_j_mtx.shape
+        )
+        num_j_mtx = np.where(is_repeated, grad_softabs_mtx, num_j_mtx)
+        den_j_mtx = np.where(is_repeated, 1, den_j_mtx)
         j_mtx = num_j_mtx / den_j_mtx
         e_vct = (self.eigvec.T @ vector) / self.eigval
         return -((self.eigvec @ (np.outer(e_vct, e_vct) * j_mtx)) @ self.eigvec.T)
